@@ -128,6 +128,35 @@ def oracleDist (T : Trig K) (sqrt : K → K) (atan2 : K → K → K) (lonA latA 
   oracleAngle sqrt atan2 (xyz T (T.deg2rad lonA) (T.deg2rad latA))
     (xyz T (T.deg2rad lonB) (T.deg2rad latB))
 
+/-! ### distances between DIRECTIONS: Cartesian positions of any radius
+
+  The property speaks of the great-circle distance between two centres, i.e. between the
+  directions of their position vectors.  A source may supply Cartesian positions with any
+  radius (metres, an un-normalised corner mean, mixed radii); the distance model therefore
+  carries the explicit normalisation step.  `Props/C16.lean` proves that `dirDist` and the
+  oracle depend only on the directions (`dirDist_scale_invariant`, `oracleAngle_scale_invariant`)
+  and that on (scaled) images of lon/lat points `dirDist` is the code's `gcDist`. -/
+
+def scale3 (c : K) (a : V3 K) : V3 K := ⟨c * a.x, c * a.y, c * a.z⟩
+
+/-- `a / |a|` -/
+def normalize3 (sqrt : K → K) (a : V3 K) : V3 K :=
+  ⟨a.x / sqrt (dot3 a a), a.y / sqrt (dot3 a a), a.z / sqrt (dot3 a a)⟩
+
+/-- arc between the directions of two (non-zero) position vectors -/
+def dirDist (acos sqrt : K → K) (a b : V3 K) : K :=
+  acos (dot3 (normalize3 sqrt a) (normalize3 sqrt b))
+
+/-- `edge_node_distances` for nodes given by Cartesian positions of any radius -/
+def edgeNodeDistXYZ (acos sqrt : K → K) (node : NodeIx → V3 K) (en : EdgeNodes) : List K :=
+  en.map (fun p => dirDist acos sqrt (node p.1) (node p.2))
+
+/-- `edge_face_distances` for face centres given by Cartesian positions of any radius -/
+def edgeFaceDistXYZ (acos sqrt : K → K) (centre : FaceIx → V3 K) (ef : EdgeFaces) : List K :=
+  ef.map (fun p => match p.2 with
+    | some g => dirDist acos sqrt (centre p.1) (centre g)
+    | none => 0)
+
 /-! ### differences -/
 
 /-- the property's value of the face difference on one edge -/
